@@ -313,6 +313,9 @@ func runFiletree(seed int64, histories, steps int, out *Emitter) {
 				"badKeys": bad, "respPath": resp, "actors": actors})
 			out.Count("filetree."+opKind(op), res.OK)
 		}
+		if withGenesis {
+			genesisRoundTrip(c, hi, "filetree", out)
+		}
 		c.Close()
 	}
 }
